@@ -179,7 +179,7 @@ def memGetMany (d : TData) : List Nat → List SV × TData
     let (vs, d2) := memGetMany d1 ks
     (v :: vs, d2)
 
-/-- `Memory::load_slice`; the `offset + bounded_size` of the range is a checked `usize` add. -/
+/-- `Memory::load_slice`. -/
 def memLoadSlice (c : Ctx) (d : TData) (offset size : SV) : Except XErr (SV × TData) :=
   let off := fold offset
   match isKnown off with
@@ -188,10 +188,10 @@ def memLoadSlice (c : Ctx) (d : TData) (offset size : SV) : Except XErr (SV × T
      | some sz =>
        let o := asUsize w
        let bounded := min (asUsize sz) c.cfg.memLimit
-       if o + bounded ≥ usizeMax then .error (.panic "memory.rs load_slice offset + bounded_size")
-       else
-         let (vs, d') := memGetMany d (wordOffsets o bounded)
-         .ok (buildNoLimit .concat [] vs, d')
+       -- `offset.saturating_add(bounded_size)`
+       let stop := min (o + bounded) (usizeMax - 1)
+       let (vs, d') := memGetMany d (wordOffsets o (stop - o))
+       .ok (buildNoLimit .concat [] vs, d')
      | none => .ok (memGetC d (asUsize w)))
   | none => .ok (memGetS d off)
 
